@@ -108,7 +108,7 @@ def ms_vars(ms):
 
 def py_pnames(n):
     k = n['k']
-    if k in ('table', 'point', 'func'):
+    if k in ('table', 'point', 'func', 'const'):
         s = evars(n['dur'])
         for r in n['reads']:
             s |= evars(r)
@@ -120,9 +120,20 @@ def py_pnames(n):
         return s
     if k == 'par':
         s = py_pnames(n['inner'])
-        for e in n['ow']:
+        for _, e in par_ow(n):
             s |= evars(e)
         return s
+    if k == 'ari':
+        s = py_pnames(n['inner'])
+        for e in n['sa']:
+            s |= evars(e)
+        for _, e in n['sc']:
+            s |= evars(e)
+        return s
+    if k == 'aat':
+        return py_pnames(n['lhs']) | py_pnames(n['rhs']) | ms_vars(n['ms'])
+    if k == 'rev':
+        return py_pnames(n['inner'])
     if k == 'rep':
         return py_pnames(n['body']) | evars(n['count']) | cs_vars(n['cs']) | ms_vars(n['ms'])
     if k == 'for':
@@ -137,14 +148,24 @@ def py_pnames(n):
     raise ValueError(k)
 
 
+def par_ow(n):
+    """overwritten channels of a 'par' node as [(channel, expr)] (old corpus format: 'ow': [expr], 'och': channel)"""
+    if 'och' in n:
+        return [(n['och'], n['ow'][0])]
+    return [(c, e) for c, e in n['ow']]
+
+
 def nodes(n):
     yield n
     k = n['k']
     if k in ('amc', 'seq'):
         for q in n['subs']:
             yield from nodes(q)
-    elif k in ('par', 'map'):
+    elif k in ('par', 'map', 'ari', 'rev'):
         yield from nodes(n['inner'])
+    elif k == 'aat':
+        yield from nodes(n['lhs'])
+        yield from nodes(n['rhs'])
     elif k in ('rep', 'for'):
         yield from nodes(n['body'])
 
@@ -161,6 +182,7 @@ class Gen:
         self.cid = 0
         self.fresh = 0
         self.max_depth = max_depth
+        self.only = None        # restrict the composite node kinds (small-scope enumeration)
         self.visible = []       # ids of constraints generated against a non-empty list of environments
 
     def name(self, prefix):
@@ -254,14 +276,39 @@ class Gen:
     def atom(self, avail, envs, chs, in_amc=False, must=None):
         r = self.rng
         names = sorted(avail)
-        kinds = ['table', 'point'] + (['func', 'func'] if len(chs) == 1 else [])
+        kinds = ['table', 'point', 'const'] + (['func', 'func'] if len(chs) == 1 else [])
         k = r.choice(kinds)
-        nreads = {'table': 2 * len(chs), 'point': 2, 'func': 1}[k]
+        nreads = {'table': 2 * len(chs), 'point': 2, 'func': 1, 'const': len(chs)}[k]
         reads = [self.expr(names) for _ in range(nreads)]
+        if k == 'func' and r.random() < 0.6:
+            reads = [self.fexpr(names)]
         if must is not None:
             reads[r.randrange(nreads)] = V(must) if r.random() < 0.6 else ['+', V(must), C(1)]
-        return {'k': k, 'ch': list(chs), 'reads': reads, 'dur': self.dur(names, const=in_amc),
-                'cs': self.constraints(names, envs), 'ms': self.windows(names)}
+        dur = self.dur(names, const=in_amc)
+        if k == 'const' and not in_amc and names and r.random() < 0.3:
+            dur = [r.choice('+-'), V(r.choice(names)), C(r.choice([0, 1]))]       # may be <= 0: no waveform
+        return {'k': k, 'ch': list(chs), 'reads': reads, 'dur': dur,
+                'cs': [] if k == 'const' else self.constraints(names, envs), 'ms': self.windows(names)}
+
+    def fexpr(self, names):
+        """expression of a function atom, depth <= 2, with products (sympy: a factor 0 absorbs the other factor)"""
+        r = self.rng
+        if len(names) < 2:
+            return self.expr(names)
+        x, y = r.sample(names, 2)
+        z = r.choice(names)
+        shape = r.randrange(6)
+        if shape == 0:
+            return ['*', V(x), V(y)]
+        if shape == 1:
+            return [r.choice('+-'), ['*', V(x), V(y)], V(z) if z not in (x, y) else C(1)]
+        if shape == 2:
+            return ['*', ['*', V(x), V(y)], V(z)]
+        if shape == 3:
+            return ['*', V(x), [r.choice('+-'), V(y), C(r.choice([1, 2]))]]
+        if shape == 4:
+            return ['*', ['+', V(x), C(r.choice([-1, 0, 1]))], V(y)]
+        return [r.choice('+-'), V(z) if z not in (x, y) else C(2), ['*', V(y), V(x)]]
 
     def mapping(self, avail, envs, make_inner, must=None):
         """MappingPT around make_inner(avail', envs')"""
@@ -285,22 +332,44 @@ class Gen:
         m = {key: ex for key, ex in m.items() if key in used}
         return {'k': 'map', 'inner': inner, 'm': m, 'cs': self.constraints(names, envs, p=0.5)}
 
-    def atomic_sub(self, avail, envs, ch):
+    def atomic_sub(self, avail, envs, ch, depth=0):
+        """atomic template on one channel with duration 2: atom, mapping / arithmetic around one, sum of two"""
         r = self.rng
-        if r.random() < 0.3:
-            return self.mapping(avail, envs, lambda a, e: self.atom(a, e, (ch,), in_amc=True))
-        return self.atom(avail, envs, (ch,), in_amc=True)
+        c = r.random()
+        if depth >= 2 or c >= 0.5:
+            return self.atom(avail, envs, (ch,), in_amc=True)
+        if c < 0.25:
+            return self.mapping(avail, envs, lambda a, e: self.atomic_sub(a, e, ch, depth + 1))
+        if c < 0.4:
+            return self.arith(avail, self.atomic_sub(avail, envs, ch, depth + 1), (ch,))
+        return {'k': 'aat', 'lhs': self.atomic_sub(avail, envs, ch, depth + 1),
+                'rhs': self.atomic_sub(avail, envs, ch, depth + 1), 'op': r.choice('+-'),
+                'ms': self.windows(sorted(avail))}
+
+    def arith(self, avail, inner, chs):
+        """ArithmeticPT(inner op scalar) / (scalar op inner); scalar = one expression or a mapping on some channels"""
+        r = self.rng
+        names = sorted(avail)
+        n = {'k': 'ari', 'inner': inner, 'op': r.choice('+-*'), 'side': r.choice('lr'), 'sa': [], 'sc': []}
+        if r.random() < 0.5:
+            n['sa'] = [self.expr(names)]
+        else:
+            sub = [c for c in chs if r.random() < 0.7]
+            n['sc'] = [[c, self.expr(names)] for c in sub]
+        return n
 
     def tree(self, depth, avail, envs, chs, must=None):
         r = self.rng
         names = sorted(avail)
         kinds = ['atom'] * 3
         if depth < self.max_depth:
-            kinds += ['seq', 'seq', 'rep', 'rep', 'for', 'for', 'map', 'map', 'map']
+            kinds += ['seq', 'seq', 'rep', 'rep', 'for', 'for', 'map', 'map', 'map', 'ari', 'rev', 'aat']
             if len(chs) == 2:
                 kinds += ['amc', 'amc', 'par']
             else:
                 kinds += ['par']
+        if self.only is not None:
+            kinds = [k for k in kinds if k in self.only] or ['atom']
         k = r.choice(kinds)
         if k == 'atom':
             if len(chs) == 1 or r.random() < 0.7:
@@ -310,10 +379,17 @@ class Gen:
         if k == 'amc':
             subs = [self.atomic_sub(avail, envs, chs[0]), self.atomic_sub(avail, envs, chs[1])]
             n = {'k': 'amc', 'subs': subs, 'cs': self.constraints(names, envs), 'ms': self.windows(names)}
+        elif k == 'aat':
+            n = {'k': 'aat', 'lhs': self.atomic_sub(avail, envs, chs[0], 1), 'rhs': self.atomic_sub(avail, envs, chs[-1], 1),
+                 'op': r.choice('+-'), 'ms': self.windows(names)}
+        elif k == 'ari':
+            n = self.arith(avail, self.tree(depth + 1, avail, envs, chs), chs)
+        elif k == 'rev':
+            n = {'k': 'rev', 'inner': self.tree(depth + 1, avail, envs, chs)}
         elif k == 'par':
             inner_chs = chs if (len(chs) == 1 or r.random() < 0.5) else (chs[0],)
-            n = {'k': 'par', 'inner': self.tree(depth + 1, avail, envs, inner_chs), 'ow': [self.expr(names)],
-                 'och': chs[-1]}
+            n = {'k': 'par', 'inner': self.tree(depth + 1, avail, envs, inner_chs),
+                 'ow': [[chs[-1], self.expr(names)]] + ([[chs[0], self.expr(names)]] if len(chs) == 2 and r.random() < 0.2 else [])}
         elif k == 'seq':
             subs = [self.tree(depth + 1, avail, envs, chs) for _ in range(r.choice([1, 2, 2, 3]))]
             n = {'k': 'seq', 'subs': subs, 'cs': self.constraints(names, envs), 'ms': self.windows(names)}
@@ -362,6 +438,8 @@ class Gen:
                  'cs': self.constraints(names, envs), 'ms': self.windows(names)}
         else:
             n = self.mapping(avail, envs, lambda a2, e2: self.tree(depth + 1, a2, e2, chs))
+        if r.random() < 0.06:
+            n['tsw'] = True     # member of to_single_waveform
         if must is not None and must not in py_pnames(n):
             extra = self.atom(avail, envs, chs, must=must)
             n = {'k': 'seq', 'subs': [n, extra], 'cs': [], 'ms': []}
@@ -375,9 +453,10 @@ def sympy_ok(tree):
     def fs(s):
         return {str(x) for x in sympy.sympify(s).free_symbols}
     for n in nodes(tree):
-        exprs = []
-        for key in ('reads', 'ow'):
-            exprs += n.get(key, [])
+        exprs = list(n.get('reads', [])) + list(n.get('sa', []))
+        if n['k'] == 'par':
+            exprs += [e for _, e in par_ow(n)]
+        exprs += [e for _, e in n.get('sc', [])]
         for key in ('dur', 'count', 'a', 'b', 'st'):
             if key in n:
                 exprs.append(n[key])
@@ -466,10 +545,40 @@ def gen_tree(rng, max_depth):
     raise RuntimeError('generator could not produce a sympy-stable tree')
 
 
-def mk_case(tree, ref, family, rng, drop=False, tag=''):
+def mk_case(tree, ref, family, rng, drop=(), tag='', zeros=(), rmn=None):
     extras = {('x%d' % i): str(F(rng.randint(-3, 3))) for i in range(rng.choice([1, 2]))}
-    return {'kind': family, 'tree': strip_ids(tree), 'ref': {k: str(v) for k, v in sorted(ref.items())},
-            'drop': drop, 'rm': rng.randrange(64), 'extra': extras, 'tag': tag}
+    c = {'kind': family, 'tree': strip_ids(tree), 'ref': {k: str(v) for k, v in sorted(ref.items())},
+         'drop': sorted(drop), 'rm': rng.randrange(64), 'extra': extras, 'tag': tag}
+    if family == 'zero':
+        c['zeros'] = sorted(zeros)
+        c['rmn'] = rmn
+    return c
+
+
+def drop_list(case):
+    d = case.get('drop')
+    if d is True:           # old corpus format: every channel dropped
+        return ['A', 'B']
+    return list(d or [])
+
+
+def zero_candidates(tree):
+    """(x, y): a function atom multiplies the top-level names x and y: x := 0 hides a missing y (known finding)"""
+    out = []
+
+    def prods(e):
+        if e[0] in '+-*':
+            if e[0] == '*' and e[1][0] == 'v' and e[2][0] == 'v' and e[1][1] != e[2][1]:
+                yield e[1][1], e[2][1]
+                yield e[2][1], e[1][1]
+            yield from prods(e[1])
+            yield from prods(e[2])
+    for n in nodes(tree):
+        if n['k'] == 'func':
+            for x, y in prods(n['reads'][0]):
+                if x in TOP and y in TOP:
+                    out.append((x, y))
+    return out
 
 
 def gen_cases(rng, tier, ctx, every_constraint=False):
@@ -493,8 +602,13 @@ def gen_cases(rng, tier, ctx, every_constraint=False):
             for x in rng.sample(TOP, rng.choice([1, 2])):
                 ref2[x] = ref2[x] + rng.choice([-2, -1, 1, 2, F(1, 2)])
             cases.append(mk_case(tree, ref2, 'exact', rng, tag='perturbed'))
-        if rng.random() < 0.35:
-            cases.append(mk_case(tree, ref, rng.choice(['exact', 'removed']), rng, drop=True, tag='drop'))
+        if rng.random() < 0.45:
+            cases.append(mk_case(tree, ref, rng.choice(['exact', 'removed']), rng,
+                                 drop=rng.choice([['A'], ['B'], ['A', 'B'], ['A', 'B']]), tag='drop'))
+        zc = zero_candidates(tree)
+        if zc:
+            x, y = rng.choice(zc)
+            cases.append(mk_case(tree, ref, 'zero', rng, zeros=[x], rmn=y, tag='zero'))
         if rng.random() < 0.2:
             bad, what = malform(tree, rng)
             if bad is not None and sympy_ok(bad):
@@ -505,10 +619,21 @@ def gen_cases(rng, tier, ctx, every_constraint=False):
 # ---------------------------------------------------------------------------------------------------------------------
 # the real objects
 
-def build_pt(n):
+def build_pt(n, tsw=None):
+    """the real template objects; templates flagged 'tsw' are collected in the list tsw (to_single_waveform)"""
+    pt = _build_pt(n, tsw)
+    if tsw is not None and n.get('tsw'):
+        tsw.append(pt)
+    return pt
+
+
+def _build_pt(n, tsw):
     from qupulse.pulses import (TablePT, PointPT, FunctionPT, AtomicMultiChannelPT, ParallelChannelPT, SequencePT,
-                                RepetitionPT, ForLoopPT, MappingPT)
+                                RepetitionPT, ForLoopPT, MappingPT, ConstantPT)
+    from qupulse.pulses.arithmetic_pulse_template import ArithmeticPulseTemplate, ArithmeticAtomicPulseTemplate
+    from qupulse.pulses.time_reversal_pulse_template import TimeReversalPulseTemplate
     k = n['k']
+    build_pt_ = lambda q: build_pt(q, tsw)
     cs = [cstr(c) for c in n.get('cs', [])]
     ms = [('m', estr(b), estr(l)) for b, l in n.get('ms', [])]
     if k == 'table':
@@ -523,19 +648,30 @@ def build_pt(n):
     if k == 'func':
         return FunctionPT('%s*t' % estr(n['reads'][0]), estr(n['dur']), channel=n['ch'][0],
                           parameter_constraints=cs, measurements=ms)
+    if k == 'const':
+        return ConstantPT(estr(n['dur']), {ch: estr(e) for ch, e in zip(n['ch'], n['reads'])}, measurements=ms)
     if k == 'amc':
-        return AtomicMultiChannelPT(*[build_pt(q) for q in n['subs']], parameter_constraints=cs, measurements=ms)
+        return AtomicMultiChannelPT(*[build_pt_(q) for q in n['subs']], parameter_constraints=cs, measurements=ms)
     if k == 'par':
-        return ParallelChannelPT(build_pt(n['inner']), {n['och']: estr(n['ow'][0])})
+        return ParallelChannelPT(build_pt_(n['inner']), {c: estr(e) for c, e in par_ow(n)})
+    if k == 'ari':
+        scalar = estr(n['sa'][0]) if n['sa'] else {c: estr(e) for c, e in n['sc']}
+        inner = build_pt_(n['inner'])
+        return (ArithmeticPulseTemplate(scalar, n['op'], inner) if n['side'] == 'l'
+                else ArithmeticPulseTemplate(inner, n['op'], scalar))
+    if k == 'aat':
+        return ArithmeticAtomicPulseTemplate(build_pt_(n['lhs']), n['op'], build_pt_(n['rhs']), measurements=ms)
+    if k == 'rev':
+        return TimeReversalPulseTemplate(build_pt_(n['inner']))
     if k == 'seq':
-        return SequencePT(*[build_pt(q) for q in n['subs']], parameter_constraints=cs, measurements=ms)
+        return SequencePT(*[build_pt_(q) for q in n['subs']], parameter_constraints=cs, measurements=ms)
     if k == 'rep':
-        return RepetitionPT(build_pt(n['body']), estr(n['count']), parameter_constraints=cs, measurements=ms)
+        return RepetitionPT(build_pt_(n['body']), estr(n['count']), parameter_constraints=cs, measurements=ms)
     if k == 'for':
-        return ForLoopPT(build_pt(n['body']), n['idx'], (estr(n['a']), estr(n['b']), estr(n['st'])),
+        return ForLoopPT(build_pt_(n['body']), n['idx'], (estr(n['a']), estr(n['b']), estr(n['st'])),
                          parameter_constraints=cs, measurements=ms)
     if k == 'map':
-        return MappingPT(build_pt(n['inner']), parameter_mapping={key: estr(e) for key, e in n['m'].items()},
+        return MappingPT(build_pt_(n['inner']), parameter_mapping={key: estr(e) for key, e in n['m'].items()},
                          parameter_constraints=cs, allow_partial_parameter_mapping=True)
     raise ValueError(k)
 
@@ -545,12 +681,14 @@ def py_value(q):
     return int(q) if q.denominator == 1 else float(q)
 
 
-def _create(pt, values, drop):
+def _create(pt, values, drop, tsw=()):
     from qupulse.pulses.parameters import ParameterConstraintViolation, ParameterNotProvidedException
     from qupulse.expressions import ExpressionVariableMissingException
     kw = {}
     if drop:
-        kw['channel_mapping'] = {ch: None for ch in pt.defined_channels}
+        kw['channel_mapping'] = {ch: None for ch in pt.defined_channels if ch in drop}
+    if tsw:
+        kw['to_single_waveform'] = set(tsw)
     try:
         with vlib.time_limit(20):
             prog = pt.create_program(parameters={k: py_value(v) for k, v in values.items()}, **kw)
@@ -570,7 +708,8 @@ def run_impl(case):
         warnings.simplefilter('ignore')
         try:
             with vlib.time_limit(20):
-                pt = build_pt(case['tree'])
+                tsw = []
+                pt = build_pt(case['tree'], tsw)
                 names = sorted(pt.parameter_names)
         except vlib.Timeout:
             return {'hang': True}
@@ -580,10 +719,16 @@ def run_impl(case):
         values = {x: ref.get(x, '1') for x in names}
         if case['kind'] == 'removed' and names:
             del values[names[case['rm'] % len(names)]]
+        if case['kind'] == 'zero':
+            for z in case['zeros']:
+                if z in values:
+                    values[z] = '0'
+            values.pop(case['rmn'], None)
         values2 = dict(values)
         values2.update(case['extra'])
-        out = _create(pt, values, case['drop'])
-        out2 = _create(pt, values2, case['drop'])
+        drop = drop_list(case)
+        out = _create(pt, values, drop, tsw)
+        out2 = _create(pt, values2, drop, tsw)
         if 'hang' in (out, out2):
             return {'hang': True}
         return {'names': names, 'values': values, 'out': out, 'values2': values2, 'out2': out2}
@@ -623,15 +768,23 @@ def g_ms(ms, nm):
 
 def g_pt(n, nm):
     k = n['k']
-    if k in ('table', 'point', 'func'):
-        return '(Atom %s %s %s %s %s)' % ({'table': 'KTable', 'point': 'KPoint', 'func': 'KFunction'}[k],
-                                          glist(lambda e: g_expr(e, nm), n['reads']), g_expr(n['dur'], nm),
-                                          g_cs(n['cs'], nm), g_ms(n['ms'], nm))
+    if k in ('table', 'point', 'func', 'const'):
+        return '(Atom %s %s %s %s %s %s)' % (
+            {'table': 'KTable', 'point': 'KPoint', 'func': 'KFunction', 'const': 'KConst'}[k],
+            glist(lambda c: nm('ch:' + c), n['ch']), glist(lambda e: g_expr(e, nm), n['reads']), g_expr(n['dur'], nm),
+            g_cs(n['cs'], nm), g_ms(n['ms'], nm))
     if k in ('amc', 'seq'):
         return '(%s %s %s %s)' % ('AMC' if k == 'amc' else 'Seq', glist(lambda q: g_pt(q, nm), n['subs']),
                                   g_cs(n['cs'], nm), g_ms(n['ms'], nm))
+    g_ce = lambda ce: '(%s, %s)' % (nm('ch:' + ce[0]), g_expr(ce[1], nm))
     if k == 'par':
-        return '(Par %s %s)' % (g_pt(n['inner'], nm), glist(lambda e: g_expr(e, nm), n['ow']))
+        return '(Par %s %s)' % (g_pt(n['inner'], nm), glist(g_ce, par_ow(n)))
+    if k == 'ari':
+        return '(Ari %s %s %s)' % (g_pt(n['inner'], nm), glist(lambda e: g_expr(e, nm), n['sa']), glist(g_ce, n['sc']))
+    if k == 'aat':
+        return '(AAt %s %s %s)' % (g_pt(n['lhs'], nm), g_pt(n['rhs'], nm), g_ms(n['ms'], nm))
+    if k == 'rev':
+        return '(Rev %s)' % g_pt(n['inner'], nm)
     if k == 'rep':
         return '(Rep %s %s %s %s)' % (g_pt(n['body'], nm), g_expr(n['count'], nm), g_cs(n['cs'], nm), g_ms(n['ms'], nm))
     if k == 'for':
@@ -657,7 +810,8 @@ def to_coq(case, obs):
     nm = Names()
     p = g_pt(case['tree'], nm)
     gv = lambda vals: glist(lambda kv: '(%s, %s)' % (nm(kv[0]), gQ(F(kv[1]))), sorted(vals.items()))
-    return '(CCase %s %s %s %s %s %s %s)' % (p, gbool(case['drop']), glist(nm, obs['names']), gv(obs['values']),
+    return '(CCase %s %s %s %s %s %s %s)' % (p, glist(lambda c: nm('ch:' + c), drop_list(case)), glist(nm, obs['names']),
+                                           gv(obs['values']),
                                            g_out(obs['out']), gv(obs['values2']), g_out(obs['out2']))
 
 
@@ -676,6 +830,10 @@ def histogram_keys(case, obs):
             keys.append('constraint_on:' + n['k'])
         if n['k'] == 'map' and n['inner']['k'] == 'map':
             keys.append('nested_map:' + ('with_cs' if n['inner']['cs'] else 'merged'))
+        if n.get('tsw'):
+            keys.append('to_single_waveform')
+    d = drop_list(case)
+    keys.append('drop:' + ('none' if not d else 'all' if len(d) == 2 else 'partial'))
     keys.append('nodes:%d' % min(len(ns), 12))
     if 'out' in obs:
         keys.append('out:' + obs['out'].split(':')[0])
